@@ -408,6 +408,36 @@ func genColumnVals(r *hlib.Rng, n int, typ int, nullMode int, bad bool) []driver
 	return vs
 }
 
+// numericText: a column of n strings for StringToFloat; good = only texts strconv.ParseFloat accepts.
+func numericText(r *hlib.Rng, n int, nullMode int, good bool) []driver.Value {
+	pool := []string{"1.5", "-2", "1e3", "NaN", "inf", "0x1p-2", "3.14159", "2.675", "-0", "", "abc", "1_0", " 1"}
+	m := len(pool)
+	if good {
+		m = 9
+	}
+	vs := make([]driver.Value, n)
+	some := false
+	for i := range vs {
+		null := false
+		switch nullMode {
+		case 1:
+			null = i < 1+n/3
+		case 2:
+			null = i >= n-1-n/3
+		case 4:
+			null = r.Chance(1, 3)
+		}
+		if !null {
+			vs[i] = pool[r.Intn(m)]
+			some = true
+		}
+	}
+	if !some && n > 0 {
+		vs[r.Intn(n)] = pool[r.Intn(m)]
+	}
+	return vs
+}
+
 func nullModeFor(r *hlib.Rng, typ int, allowBad bool) int {
 	// NULLs belong in float and text columns; with allowBad also elsewhere
 	if typ == 1 || typ == 3 || typ == 4 || typ == 5 || allowBad {
@@ -558,10 +588,44 @@ func caseRead(s *hlib.Suite, r *hlib.Rng) {
 	if r.Chance(1, 4) {
 		c.Precision = 1 + r.Intn(3)
 	}
+	mixed := false
 	if r.Chance(1, 4) {
 		c.HasCoerce = true
+		// Half of the coercion cases: two coerced columns of DIFFERENT kinds (an int column read with
+		// Int64ToBool, a numeric-text column read with StringToFloat) placed behind an uncoerced first
+		// column, the pairs in either order.
+		mixed = r.Chance(1, 2)
+		first := 0
+		var forced []sqlterm.Coerce
+		if mixed {
+			first = 1
+			for _, kind := range r.Perm(2) {
+				name := []string{"kb", "kf"}[kind]
+				modes := []int{0, 0, 0, 1, 2, 4}
+				mode := modes[r.Intn(len(modes))]
+				if kind == 0 && (inQ || r.Chance(2, 3)) {
+					mode = 0 // a NULL in the int -> bool column makes the read fail
+				}
+				var vals []driver.Value
+				if kind == 0 {
+					vals = genColumnVals(r, len(rows), 0, mode, false)
+				} else {
+					vals = numericText(r, len(rows), mode, inQ || r.Chance(2, 3))
+				}
+				at := 1 + r.Intn(len(names))
+				names = append(names[:at], append([]string{name}, names[at:]...)...)
+				types = append(types[:at], append([]int{-1}, types[at:]...)...)
+				for i := range rows {
+					rows[i] = append(rows[i][:at], append([]driver.Value{vals[i]}, rows[i][at:]...)...)
+				}
+				forced = append(forced, sqlterm.Coerce{Column: name, Kind: 1 + kind})
+			}
+		}
 		for j, n := range names {
-			if r.Chance(1, 2) {
+			if j < first || types[j] < 0 {
+				continue
+			}
+			if r.Chance(1, 2) && (!mixed || r.Chance(1, 2)) {
 				k := 1 + r.Intn(2)
 				if types[j] == 0 && r.Chance(3, 4) {
 					k = 1
@@ -576,6 +640,11 @@ func caseRead(s *hlib.Suite, r *hlib.Rng) {
 				}
 				c.Coerce = append(c.Coerce, sqlterm.Coerce{Column: n, Kind: k})
 			}
+		}
+		// the forced pairs go to a random position among the others, keeping their relative order
+		for _, f := range forced {
+			at := r.Intn(len(c.Coerce) + 1)
+			c.Coerce = append(c.Coerce[:at], append([]sqlterm.Coerce{f}, c.Coerce[at:]...)...)
 		}
 		if r.Chance(1, 3) {
 			c.Coerce = append(c.Coerce, sqlterm.Coerce{Column: "missing", Kind: 1 + r.Intn(2)})
@@ -609,6 +678,30 @@ func caseRead(s *hlib.Suite, r *hlib.Rng) {
 	}
 	if c.HasCoerce {
 		s.Count("read/coerce")
+		kinds, late, plain := map[int]bool{}, false, false
+		for _, n := range names { // last pair for a name wins
+			k := 0
+			for _, p := range c.Coerce {
+				if p.Column == n {
+					k = p.Kind
+				}
+			}
+			if k == 0 {
+				plain = true
+			} else {
+				kinds[k] = true
+				late = late || plain
+			}
+		}
+		if len(kinds) == 2 {
+			s.Count("read/coerce/two-kinds")
+		}
+		if late {
+			s.Count("read/coerce/after-uncoerced")
+		}
+		if mixed {
+			s.Count("read/coerce/mixed-forced")
+		}
 	}
 	_ = pv
 	if panicked {
@@ -663,7 +756,7 @@ func main() {
 	s.Rule = "insert: random name lists (0..12, special characters, invalid names) x dialects (escape 0, \", `, non-ASCII and invalid runes; ? and $i) through sqlhook.Insert; " +
 		"write: frames of 1..5 columns of all five column types (nil strings, NaN payloads, +-0, extremes, enum) derived by Sort/Filter/Slice, written through the recording driver, a third with an Exec refused at a random position; " +
 		"scan: one Column fed a value sequence (typed with NULL patterns none/leading/trailing/all/random, a fifth with foreign values), coercions, precision with oracle tables for float.Fixed and ParseFloat; " +
-		"read: canned result sets (3/5 inside the quantifier of C19, the rest with duplicate/rejected names, NULLs in int/bool columns, mixed types), coercions incl. a missing column, precision, a sixth with a driver fault; " +
+		"read: canned result sets (3/5 inside the quantifier of C19, the rest with duplicate/rejected names, NULLs in int/bool columns, mixed types), coercions incl. a missing column (half of the coercion cases: an int column with Int64ToBool and a numeric-text column with StringToFloat behind an uncoerced first column, pairs in either order), precision, a sixth with a driver fault; " +
 		"round: ToSQL into the store then ReadSQL from it. Non-trivial = at least one row/name/value; distinct by Coq term."
 	r := hlib.NewRng(cfg.Seed)
 	for i := 0; i < cfg.N; i++ {
